@@ -191,6 +191,17 @@ Fixpoint value_to_expr (j : json) : res expr :=
       end
   end.
 
+(* RawCedarValueJson: the whole value is deserialised first, every integer must fit i64 *)
+Fixpoint json_ints_ok (j : json) : bool :=
+  match j with
+  | JInt z => in_i64 z
+  | JArr l => (fix go (l : list json) : bool :=
+                 match l with [] => true | x :: l' => json_ints_ok x && go l' end) l
+  | JObj l => (fix go (l : list (str * json)) : bool :=
+                 match l with [] => true | (_, x) :: l' => json_ints_ok x && go l' end) l
+  | _ => true
+  end.
+
 Definition req (k : string) (cs : list (str * res expr)) : res expr :=
   match lookup (K k) cs with Some r => r | None => bad end.
 
@@ -280,7 +291,7 @@ Fixpoint est_to_ast_expr (j : json) : res expr :=
         | JArr args => do es <- go args; Ok (ExtCall [k] es)
         | _ => bad
         end
-      else if str_eqb k (K "Value") then value_to_expr body
+      else if str_eqb k (K "Value") then (if json_ints_ok body then value_to_expr body else bad)
       else if str_eqb k (K "Var") then
         match body with
         | JStr s => match var_of s with Some v => Ok (Var v) | None => bad end
